@@ -30,12 +30,16 @@ type Pres struct {
 	Unknown    int    // number of unknown fields to insert
 	NonMinimal bool   // over-long varints for values, lengths and tags
 	UnknownInT bool   // unknown fields inside the mtime sub-message as well
+	EmptyRun   bool   // with Packed: an empty block-size list is written as a packed run of length zero
 }
 
 func (p Pres) Class() string {
 	s := p.Kind
 	if p.Packed {
 		s += "+packed"
+	}
+	if p.EmptyRun {
+		s += "+emptyrun"
 	}
 	if p.Interleave {
 		s += "+interleaved"
@@ -161,7 +165,7 @@ func Encode(r *rand.Rand, m Msg, p Pres) []byte {
 		for _, v := range m.BlockSizes {
 			run = append(run, w.varint(v)...)
 		}
-		if len(m.BlockSizes) > 0 {
+		if len(m.BlockSizes) > 0 || p.EmptyRun {
 			fs = append(fs, w.bfield(4, run))
 		}
 	} else {
